@@ -1112,8 +1112,15 @@ class Session:
 
     def data_actions(self, n_actions):
         rng = self.rng
+        idle = 0
         for _ in range(n_actions):
             if self.failed or self.b.cycle > 60000:
+                return
+            # nothing left to move in either direction: a few more actions, then go on
+            busy = (self.out_remaining() or self.in_seen < len(self.src) or self.in_unacked is not None
+                    or (not self.loop and self.tx_sent < len(self.tx_plan)))
+            idle = 0 if busy else idle + 1
+            if idle > 12:
                 return
             r = rng.random()
             if r < 0.80:
